@@ -33,7 +33,21 @@ SEARCH_FLAGS = {"-e", "-O", "--no-indels", "--match-read-wildcards", "-N", "-n",
 SWAP = {"-a": "-A", "-g": "-G", "-b": "-B", "-A": "-a", "-G": "-g", "-B": "-b"}
 
 
+STAMP_RC = re.compile(r"( rc)? a=(\S+)$")
+
+
 def generate(rng, tier):
+    if rng.random() < 0.07:
+        # paired-end --revcomp: the info file is no witness there (it describes one read only), but the read
+        # names are - ' rc' marks a swapped pair and the -y suffix names each mate's last match
+        case = gen.gen_case(rng, {
+            "paired": True, "fastq": True, "p_adapters": 1.0, "require_named": True, "upper_only": True, "p_revcomp": 1.0,
+            "revcomp_single_only": False, "p_filters": 0.0, "p_redirect": 0.0, "p_untrimmed_opts": 0.0, "p_demux": 0.0,
+            "p_pair_adapters": 0.0, "times": (1, 1), "p_rename": 0.0, "force_suffix": " a={name}", "p_stdout": 0.0,
+            "p_minimal_report": 0.0, "p_info": 0.0, "p_interleaved_out": 0.0, "p_same_r2": 0.1,
+        })
+        case["meta"]["paired_revcomp_stamps"] = True
+        return case
     return gen.gen_case(rng, {
         "p_adapters": 1.0, "require_named": True, "force_info": True, "upper_only": True, "shorten_before_adapter": False,
         "p_demux": 0.05, "p_revcomp": 0.2, "p_pair_adapters": 0.12, "p_filters": 0.3, "p_rename": 0.1,
@@ -424,7 +438,74 @@ def mirrored(case):
     return m
 
 
+def judge_stamps(case, res, name):
+    """Paired --revcomp: per adapter, matches and matches on swapped pairs counted from the read names."""
+    out = []
+    j = C.load_json_report(res)
+    if j is None:
+        return [C.V("json-missing", f"{name}: no JSON report")]
+    o, p = C._optval(case["outs"], "-o"), C._optval(case["outs"], "-p")
+    try:
+        _, r1, r2 = C.read_dest(res, {"paths": [o, p], "interleaved": False})
+    except (KeyError, fmt.FormatError) as e:
+        return [C.V("output-unreadable", f"{name}: {e}")]
+    if len(r1) != len(case["records"]):
+        raise engine.Discard("not-all-pairs-written")
+    any_rc = bool(j["read_counts"]["reverse_complemented"])
+    for label, recs, key in (("R1", r1, "adapters_read1"), ("R2", r2, "adapters_read2")):
+        n, rc = Counter(), Counter()
+        for rec in recs:
+            m = STAMP_RC.search(rec[0])
+            if not m:
+                raise engine.Discard("stamp-missing")
+            if m.group(2) != "no_adapter":
+                n[m.group(2)] += 1
+                rc[m.group(2)] += 1 if m.group(1) else 0
+        names = Counter(a["name"] for a in (j[key] or []))
+        for nm in names:
+            group = [a for a in j[key] if a["name"] == nm]
+            if any(a["linked"] for a in group):
+                raise engine.Discard("linked-adapter")
+            tm = sum(a["total_matches"] for a in group)
+            if tm != n[nm]:
+                out.append(C.V("match-count", f"{name}: {label} adapter {nm}: total_matches={tm} but {n[nm]} reads carry its name"))
+            got = [a["on_reverse_complement"] for a in group]
+            want = rc[nm] if any_rc else None
+            if (None in got) != (want is None) or (want is not None and sum(g_ or 0 for g_ in got) != want):
+                out.append(C.V("reverse-complement-count", f"{name}: {label} adapter {nm}: on_reverse_complement={got} but {want} of its matches are on swapped pairs"))
+    return out
+
+
+def evaluate_paired_revcomp(case, ctx):
+    files = engine.gen_files(case)
+    ref = C.run_serial(case, ctx, files)
+    if ref.exit == 2:
+        raise engine.Discard("cli-rejected")
+    if ref.exit != 0:
+        raise engine.Discard("reference-run-failed")
+    viols = judge_stamps(case, ref, "serial")
+    par = C.run_parallel(case, ctx, files)
+    hv = C.hang_violations(par, "par")
+    if hv:
+        return viols + hv
+    if par.exit != 0:
+        if C.is_buffer_too_small(par, case):
+            raise engine.Discard("buffer-too-small")
+        viols.append(C.V("exit-status", f"par: exit status {par.exit}; stderr tail {par.stderr[-300:]!r}"))
+    else:
+        viols += judge_stamps(case, par, "par")
+    case["meta"]["rows"] = len(case["records"])
+    seen, uniq = set(), []
+    for v in viols:
+        if v["clause"] not in seen:
+            seen.add(v["clause"])
+            uniq.append(v)
+    return uniq
+
+
 def evaluate(case, ctx):
+    if case["meta"].get("paired_revcomp_stamps"):
+        return evaluate_paired_revcomp(case, ctx)
     files = engine.gen_files(case)
     _NO_WILDCARDS[0] = any(g[0] == "-N" for g in case["opts"])
     ref = C.run_serial(case, ctx, files)
